@@ -67,6 +67,14 @@ def main():
                     if isinstance(r, dict) and r.get('rc') == 1:
                         caught, own = True, dict(r, first='[by %s] %s' % (c, r.get('first', '')))
                         break
+            try:
+                oos = json.load(open(os.path.join(HERE, 'seeded', tag, 'meta.json'))).get('out_of_scope')
+            except (IOError, ValueError):
+                oos = None
+            if oos and not caught:
+                results[tag]['_out_of_scope'] = True
+                print('%-10s %-7s %s' % (tag, 'N/A', 'outside the properties\' quantifiers (see meta.json)'), flush=True)
+                continue
             ok = ok and caught
             print('%-10s %-7s %s' % (tag, 'CAUGHT' if caught else ('ERROR ' + res.get('_error', '') if '_error' in res else 'MISSED rc=%s' % own.get('rc')),
                                      own.get('first', '')[:150]), flush=True)
